@@ -14,7 +14,7 @@ Import ListNotations.
 (** extras that were already there *)
 Lemma mfr_absorb e st st' : mfr e st st' -> (forall id rq, In (id, rq) e -> HasReq st id rq) -> mfr [] st st'.
 Proof.
-  intros [A B C D E] He. constructor; auto. intros id rq H. left. destruct (A id rq H); auto.
+  intros [A B C D E K] He. constructor; auto. intros id rq H. left. destruct (A id rq H); auto.
 Qed.
 
 (* ------------------------------------------------------------------ appending *)
@@ -118,9 +118,10 @@ Proof.
     assert (Es : mview s = mview st4 /\ g_clients g' = g_clients g).
     { unfold update_next_client in H5. break_all H5; inv_ok; split; reflexivity. }
     destruct Es as [Es Ec].
-    eapply mfr_trans0; [apply mfr_view; exact Es |]. apply mfr_set_groups. intros name'.
     assert (Eg' : r_groups s = r_groups st4) by (unfold mview in Es; congruence).
-    unfold mems. rewrite Eg'. eapply mems_al_set_same; [exact Eg | exact Ec]. }
+    eapply mfr_trans0; [apply mfr_view; exact Es |]. apply mfr_set_groups.
+    - intros name'. unfold mems. rewrite Eg'. eapply mems_al_set_same; [exact Eg | exact Ec].
+    - rewrite Eg'. eapply al_set_keys; exact Eg. }
   destruct (MAX_CHANNEL_CAPACITY - 1 <=? len).
   - apply bind_ok in H as ([st6 l6] & H6 & H). inv_ok. split; [| reflexivity].
     eapply mfr_trans0; [exact F4 |]. eapply mfr_trans0; [exact F5 | eapply push_out_mfr; eauto].
@@ -220,7 +221,7 @@ Proof.
   match type of H with context [slab_get (r_obufs ?s) id] => set (st2 := s) in * end.
   assert (F2 : mfr [] st st2).
   { unfold st2. eapply mfr_trans0; [apply (mfr_view st (set_r_ready st rq)); reflexivity |].
-    eapply mfr_trans0; [| apply mfr_view; reflexivity].
+    apply (mfr_trans0 _ (put_tracker (set_r_ready st rq) id (set_tr_reqs t []))); [| apply mfr_view; reflexivity].
     apply (mfr_put_tracker (set_r_ready st rq) id t _ [] Et). cbn [set_tr_reqs tr_reqs]. intros x []. }
   assert (HM2 : MemInv st2) by (eapply MemInv_mfr0; eauto).
   assert (Hreqs : Forall (Good st2 id) (tr_reqs t)).
